@@ -208,6 +208,26 @@ func (f *remoteWrapper) Config() proxyv1alpha1.RateLimitItemConfiguration {
 func (f *remoteWrapper) clampToGlobal(limitItem proxyv1alpha1.RateLimitItemConfiguration) proxyv1alpha1.RateLimitItemConfiguration {
 	local := f.flowControlCache.local.Config()
 	out := *limitItem.DeepCopy()
+	// only a quota of the schema's own kind is usable; an answer that carries none (no limit at all, or one of the
+	// other kind) must not turn the schema into an unlimited or differently typed limiter: the local limit applies
+	switch {
+	case local.GlobalMaxRequestsInflight != nil:
+		out.TokenBucket = nil
+		if out.MaxRequestsInflight == nil {
+			out.MaxRequestsInflight = &proxyv1alpha1.MaxRequestsInflightFlowControlSchema{}
+			if local.MaxRequestsInflight != nil {
+				out.MaxRequestsInflight.Max = local.MaxRequestsInflight.Max
+			}
+		}
+	case local.GlobalTokenBucket != nil:
+		out.MaxRequestsInflight = nil
+		if out.TokenBucket == nil {
+			out.TokenBucket = &proxyv1alpha1.TokenBucketFlowControlSchema{}
+			if local.TokenBucket != nil {
+				out.TokenBucket.QPS, out.TokenBucket.Burst = local.TokenBucket.QPS, local.TokenBucket.Burst
+			}
+		}
+	}
 	if out.MaxRequestsInflight != nil && local.GlobalMaxRequestsInflight != nil {
 		if out.MaxRequestsInflight.Max > local.GlobalMaxRequestsInflight.Max {
 			out.MaxRequestsInflight.Max = local.GlobalMaxRequestsInflight.Max
